@@ -196,6 +196,16 @@ def _region(o, st):
     return frozenset(out)
 
 
+def _region_all(o, st):
+    """rows on which the statement executes whatever the value of the free tests (tests other than C/F/O/E)"""
+    c = o.cond(st)
+    out = set()
+    for env in rows(ATOMS):
+        if all(c(dict(env, **fenv)) for fenv in rows(o.free)):
+            out.add(tuple(env.values()))
+    return frozenset(out)
+
+
 def r2_message(repo):
     o = Oracle(repo)
     obs = []
@@ -343,7 +353,11 @@ def r4_cleanup(repo):
                     if pid_loop is not None and is_within(ct, pid_loop))
         # once per pid: the innermost loop around it is the loop over the pids (an `else:` branch of that loop's body is
         # still that loop); when: exactly on the rows of `want` (the region); after the copies: line order
-        ok = reg == want and inner[:1] == [pid_loop] and pid_loop is not None and later
+        try:
+            reg_all = _region_all(o, c)
+        except AnalysisError:
+            reg_all = None
+        ok = reg == want and reg_all == want and inner[:1] == [pid_loop] and pid_loop is not None and later
         msg = ("rmtree(<test_dir>/tmp/<pid>) must run once per pid, unconditionally for every pid the tool did not "
                "fail on (no crash), after the test case was saved: guards=%s directly-in-pid-loop=%s after-copies=%s"
                % (o.gtext(c), in_body, later))
